@@ -59,7 +59,8 @@ REQUIRED = ["OPM.C22.number_accepts_iff_documented", "OPM.C22.number_delivers_do
             "OPM.C22.categorical_rejects_blank", "OPM.C22.units_introspection", "OPM.C22.exclusive_introspection",
             "OPM.C22.additive_introspection", "OPM.C22.regex_number_language", "OPM.C22.regex_categorical_language",
             "OPM.C22.regex_number_is_acceptor", "OPM.C22.regex_categorical_is_acceptor",
-            "OPM.C22.regex_number_optional_is_acceptor", "OPM.C22.dollar_is_end"]
+            "OPM.C22.regex_number_optional_is_acceptor", "OPM.C22.dollar_is_end",
+            "OPM.C22.published_units_are_pattern_units"]
 
 SANE_UNITS = ["m2", "L/h", "%", "degC", "kg", "s", "min", "h", "mS/cm", "CV", "(L/h)/%", "a|b", "µS", "m.s", "x+y",
               "[u]", "r^2", "$", "a\\b", "{q}", "#", "~", "&", "m*", "u?", "-x", "<number_unit>", "E F", "x)y", ")"]
@@ -706,6 +707,182 @@ def _try(fn):
 
 # ----------------------------------------------------------------------------------------------
 
+# ----------------------------------------------------------------------------------------------
+# the UI route: UodBuilder -> build_commands -> command descriptions / process-value entries / editor definition
+
+TAG_UNITS = ["L/h", "%", "kg", "L", "degC", "s", None]
+UOD_UNITS = ["L/h", "L/min", "%", "CV", "kg", "g", "L", "mL", "degC", "s", "min", "rpm", "Hz", "a|b", "x)y", "m2", "w\\"]
+
+
+def gen_uods(ctx: Check):
+    rng = ctx.rng
+    from openpectus.lang.exec.units import get_compatible_unit_names
+    uods = []
+    for _ in range(ctx.n(60, 1500)):
+        cmds = []
+        for i in range(rng.randrange(2, 7)):
+            name = f"Cmd{i}"
+            if rng.random() < 0.25:
+                cmds.append({"kind": "cat", "name": name, "ex": pick_list(rng, SANE_OPTIONS, [], weird_p=0),
+                             "ad": pick_list(rng, SANE_OPTIONS, [], weird_p=0)})
+                if cmds[-1]["ex"] is None and cmds[-1]["ad"] is None:
+                    cmds[-1]["ad"] = ["A", "B"]
+                continue
+            tag_unit = rng.choice(TAG_UNITS)
+            paired = rng.random() < 0.7
+            k = rng.random()
+            compat = get_compatible_unit_names(tag_unit) if tag_unit is not None else []
+            if k < 0.12:
+                units = None
+            elif k < 0.4 and compat:       # (a) the tag's unit and units compatible with it
+                units = [tag_unit] + rng.sample(compat, min(len(compat), rng.randrange(0, 3)))
+            elif k < 0.75:                 # (b) some units the tag's unit is not compatible with
+                units = ([tag_unit] if tag_unit and rng.random() < 0.7 else []) + \
+                    rng.sample(UOD_UNITS, rng.randrange(1, 4))
+            else:                          # anything
+                units = rng.sample(UOD_UNITS, rng.randrange(1, 5))
+            if units is not None:
+                units = list(dict.fromkeys(units))
+                rng.shuffle(units)
+            cmds.append({"kind": "num", "name": name, "units": units, "nn": rng.random() < 0.3, "io": False,
+                         "optional": rng.random() < 0.15, "tag": paired or rng.random() < 0.5, "tag_unit": tag_unit,
+                         "paired": paired})
+        uods.append({"kind": "uod", "cmds": cmds})
+    return uods
+
+
+def _exec_number(cmd, number=None, number_unit=None):
+    cmd.set_complete()
+
+
+def _exec_option(cmd, option):
+    cmd.set_complete()
+
+
+def build_uod(case):
+    from openpectus.lang.exec.tags import Tag, create_system_tags
+    from openpectus.lang.exec.uod import UodBuilder
+    b = (UodBuilder().with_instrument("VerifUod").with_author("v", "v@example.org").with_filename(__file__)
+         .with_hardware_none().with_location("nowhere"))
+    for c in case["cmds"]:
+        pat = safe_build(c)
+        if c["kind"] == "num":
+            if c["tag"]:
+                b.with_tag(Tag(c["name"], value=1.0, unit=c["tag_unit"]))
+            b.with_command_regex_arguments(c["name"], pat, _exec_number)
+            if c["paired"]:
+                b.with_process_value_entry(tag_name=c["name"], entry_data_type="float")
+        else:
+            b.with_command_regex_arguments(c["name"], pat, _exec_option)
+    uod = b.build()
+    uod.system_tags = create_system_tags()
+    uod.validate_configuration()
+    uod.build_commands()
+    return uod
+
+
+def uod_view(case):
+    """Per command: what the UI and the editor are given (command description, process-value entry as serialised
+    in ReadingInfo, editor definition)."""
+    from openpectus.lang.exec.uod import RegexNamedArgumentParser
+    uod = build_uod(case)
+    readings = {r.tag_name: r.as_reading_info() for r in uod.readings}
+    defs = {c.name: c for c in uod.create_lsp_definition().commands}
+    view = {}
+    for c in case["cmds"]:
+        d = uod.command_descriptions[c["name"]]
+        ed = RegexNamedArgumentParser.deserialize(defs[c["name"]].validator, c["name"])
+        view[c["name"]] = dict(desc_units=list(d.argument_valid_units), desc_ex=list(d.argument_exclusive_options),
+                               desc_ad=list(d.argument_additive_options),
+                               reading_units=(readings[c["name"]].valid_value_units
+                                              if c["kind"] == "num" and c["paired"] else "unpaired"),
+                               ed_units=_try_list(ed.get_units), ed_ex=_try_list(ed.get_exclusive_options),
+                               ed_ad=_try_list(ed.get_additive_options))
+    return view
+
+
+def _try_list(fn):
+    try:
+        return list(fn())
+    except Exception as e:
+        return f"{type(e).__name__}"
+
+
+def _tag_compat(c):
+    from openpectus.lang.exec.units import get_compatible_unit_names
+    if c["kind"] != "num" or not c["paired"] or c["tag_unit"] is None:
+        return None
+    return get_compatible_unit_names(c["tag_unit"])
+
+
+def uod_lines(case) -> list[str]:
+    out = []
+    for c in case["cmds"]:
+        e = enc(safe_build(c))
+        compat = _tag_compat(c)
+        out.append(f"pu\t{enc_list(compat or [])}\t{e}")
+        if c["kind"] == "num" and c["paired"]:
+            from openpectus.lang.exec.units import get_compatible_unit_names
+            out.append(f"ru\t{enc_list(list(get_compatible_unit_names(c['tag_unit'])))}\t{e}")   # match_with_tags' default
+        out += [f"ge\t{e}", f"ga\t{e}", f"gu\t{e}"]
+    return out
+
+
+def uod_impl(case) -> list[str]:
+    view = uod_view(case)
+    out = []
+    for c in case["cmds"]:
+        v = view[c["name"]]
+        out.append("ok\t" + enc_list(v["desc_units"]))
+        if c["kind"] == "num" and c["paired"]:
+            out.append("None" if v["reading_units"] is None else "ok\t" + enc_list(v["reading_units"]))
+        out += ["ok\t" + enc_list(v["desc_ex"]), "ok\t" + enc_list(v["desc_ad"]),
+                ("ok\t" + enc_list(v["ed_units"])) if isinstance(v["ed_units"], list) else "err:" + v["ed_units"]]
+    return out
+
+
+def oracle_uod(case) -> list[Failure]:
+    """'The unit and option lists that the UI and editor derive from a pattern are exactly those it was built from',
+    on the route the UI takes: build_commands (command description, paired process-value entry) and the editor
+    definition.  Judged for patterns that declare units / options (a pattern without units derives nothing)."""
+    view = uod_view(case)
+    fails: list[Failure] = []
+
+    def add(key, c, detail):
+        if not any(f.key == key for f in fails):
+            fails.append(Failure(key, {"kind": "uod", "cmds": [c]}, detail))
+
+    def same(got, want):
+        return isinstance(got, list) and sorted(got) == sorted(want)
+    for c in case["cmds"]:
+        v = view[c["name"]]
+        where = (f"command {c['name']} paired={c.get('paired')} tag unit={c.get('tag_unit')!r}")
+        if c["kind"] == "num":
+            units = c["units"] or []
+            if not units or any(u == "" for u in units):
+                continue
+            if not same(v["desc_units"], units):
+                add("ui-command-units-differ-from-pattern-units", c,
+                    f"{where}: pattern built from {units!r}, command description lists {v['desc_units']!r}")
+            if c["paired"] and not same(v["reading_units"], units):
+                add("ui-process-value-units-differ-from-pattern-units", c,
+                    f"{where}: pattern built from {units!r}, process value entry lists {v['reading_units']!r}")
+            if not same(v["ed_units"], units):
+                add("editor-units-differ-from-pattern-units", c,
+                    f"{where}: pattern built from {units!r}, editor definition gives {v['ed_units']!r}")
+        else:
+            ex, ad = c["ex"] or [], c["ad"] or []
+            if any(o == "" for o in ex + ad):
+                continue
+            if not same(v["desc_ex"], ex) or not same(v["desc_ad"], ad):
+                add("ui-command-options-differ-from-pattern-options", c,
+                    f"{where}: built from {ex!r} / {ad!r}, description lists {v['desc_ex']!r} / {v['desc_ad']!r}")
+            if not same(v["ed_ex"], ex) or not same(v["ed_ad"], ad):
+                add("editor-options-differ-from-pattern-options", c,
+                    f"{where}: built from {ex!r} / {ad!r}, editor gives {v['ed_ex']!r} / {v['ed_ad']!r}")
+    return fails
+
+
 def classes_impl() -> list[str]:
     rng_ = range(0x3100)
     sp = [c for c in rng_ if re.match(r"\s", chr(c))]
@@ -726,13 +903,29 @@ def run(ctx: Check) -> int:
                 "fidelity, None / [] lists; per configuration 50 (thorough 80) strings: documented-language samples, "
                 "near-misses (missing/duplicate/leading/trailing '+', concatenation, mixed exclusive+additive, wrong "
                 "case, truncated unit, double sign/dot, unicode digits) and random mutations. Non-trivial = at least "
-                "one string accepted and one rejected for the configuration.")
+                "one string accepted and one rejected for the configuration. UI route: 60 (thorough 1500) UODs of 2-6 "
+                "commands built with UodBuilder, numeric-pattern commands paired with a process-value entry on a tag "
+                "whose unit is one of the pattern's units / incompatible with some of them / None (or unpaired), "
+                "categorical commands; compared: command description, serialised process-value entry, editor definition.")
     cases = load_corpus_cases() + gen_cases(ctx)
     out, mout = ctx.correspond("patterns", "ArgRegex", cases, case_lines, impl_case,
                                nontrivial=lambda c, o: any(x == "none" for x in o) and any(x.startswith("m\t") for x in o))
     k = next((i for i, c in enumerate(cases) if not c.get("scope") and i > 10), len(cases)) + 40
     ctx.selftest("patterns", "ArgRegex", cases[:k], mutant_lines, mout[:k])
     ctx.correspond("char-classes", "ArgRegex", [0], lambda c: ["classes"], lambda c: classes_impl())
+    # the UI route through build_commands, with paired process-value readings
+    uods = load_corpus_uods() + gen_uods(ctx)
+    ctx.correspond("uod-build-commands", "ArgRegex", uods, uod_lines, uod_impl,
+                   nontrivial=lambda u, o: any(c["kind"] == "num" and c["paired"] and c["units"] for c in u["cmds"]))
+    for u in uods:
+        for c in u["cmds"]:
+            if c["kind"] == "num":
+                compat = _tag_compat(c) or []
+                kind = ("unpaired" if not c["paired"] else "paired:no-pattern-units" if not c["units"] else
+                        "paired:tag-without-unit" if c["tag_unit"] is None else
+                        "paired:all-compatible" if all(x in compat for x in c["units"]) else "paired:some-incompatible")
+                ctx.count("uod:" + kind)
+    ctx.monitor(uods, oracle_uod)
     # malformed stream: introspection of damaged pattern texts (index errors, missing groups, stray parentheses)
     rng = ctx.rng
     damaged = []
@@ -794,6 +987,11 @@ def run(ctx: Check) -> int:
     return ctx.finish(search=lambda c: c.monitor(gen_cases(c), oracle))
 
 
+def load_corpus_uods():
+    from vp.core import load_corpus
+    return [c for c in load_corpus("C22") if isinstance(c, dict) and c.get("kind") == "uod"]
+
+
 def load_corpus_cases():
     from vp.core import load_corpus
     return [c for c in load_corpus("C22") if isinstance(c, dict) and c.get("kind") in ("cat", "num")]
@@ -801,6 +999,12 @@ def load_corpus_cases():
 
 def replay(obj) -> int:
     case = obj.get("case", {})
+    if case.get("kind") == "uod":
+        print(uod_view(case))
+        fails = oracle_uod(case)
+        for f in fails:
+            print("FAIL", f.key, f.detail)
+        return 1 if fails else 0
     if case.get("kind") not in ("cat", "num"):
         print(obj)
         return 0
